@@ -24,7 +24,7 @@ use crate::proto::{Ctx, attrs};
 pub fn meta() -> Meta {
     Meta {
         level: "exploration",
-        rule: "bounded exhaustive. simplify: every circuit of the tiers g1 (1 gate, 0..3 inputs, <=3 literals, wide alphabet), g2i0w, g2i1c, g2i2k (2 gates, <=3 literals), g3i1l (3 gates, 1 input, <=2 literals, lean alphabet), oob tiers g1i1o/g2i1o; thorough adds g2i1w, g2i2w, g2i3c, g3i0c, g3i1c, g3i2c (<=2 literals), g3i2s (3 gates, 2 inputs, <=3 literals, slim alphabet), g3i1o. alphabets: core = {F,T,+-input,+-gate (self, forward, backward),+first unknown input}, wide = core+{-unknown,+-UNDEF}, lean = {T,+-input,+-gate}, known (k) = core without the unknown input, slim = {T,+i0,-i0,+i1,+next gate,-gate after next}, oob = core+{+-gate not present}; kinds and/or/xor; roots = each gate alone, all gates (mixed polarity), all gates reversed. A simplify case is non-trivial when the reachable fragment is acyclic, free of unknown inputs and the simplified circuit still has a gate. parsers: all token sequences up to length 5/4 (thorough 6/5) over a raw and a line-level alphabet per format x all parse-option combinations, sequences up to length 3 (4) also through load_file; all proper prefixes and all position x 10 byte (thorough 256 byte) substitutions of the crate's test inputs; header counts at MAX_CAPACITY. A parser case is non-trivial when the input is accepted (the accepted problem is then simplified and compared by truth table). aiger: every AIG of the listed (inputs, latches, ands, outputs) tiers with all and-gate operand pairs, latch next-state literals x 4 init forms and output literals, plus AIGER-1.9 sections and symbol tables (every subset of the symbol lines in every order, for 4 input/latch count shapes), in both encodings; all non-trivial. Every enumerated case is distinct.",
+        rule: "bounded exhaustive. simplify: every circuit of the tiers g1 (1 gate, 0..3 inputs, <=3 literals, wide alphabet), g2i0w, g2i1c, g2i2k (2 gates, <=3 literals), g3i1l (3 gates, 1 input, <=2 literals, lean alphabet), oob tiers g1i1o/g2i1o; thorough adds g2i1w, g2i2w, g2i3c, g3i0c, g3i1c, g3i2c (<=2 literals), g3i2s (3 gates, 2 inputs, <=3 literals, slim alphabet), g3i1o. alphabets: core = {F,T,+-input,+-gate (self, forward, backward),+first unknown input}, wide = core+{-unknown,+-UNDEF}, lean = {T,+-input,+-gate}, known (k) = core without the unknown input, slim = {T,+i0,-i0,+i1,+next gate,-gate after next}, oob = core+{+-gate not present}; kinds and/or/xor; roots = each gate alone, all gates (mixed polarity), all gates reversed. A simplify case is non-trivial when the reachable fragment is acyclic, free of unknown inputs and the simplified circuit still has a gate. parsers: all token sequences up to length 5/4 (thorough 6/5) over a raw and a line-level alphabet per format x all parse-option combinations, sequences up to length 3 (4) also through load_file; all proper prefixes and all position x 10 byte (thorough 256 byte) substitutions of the crate's test inputs; header counts at MAX_CAPACITY. A parser case is non-trivial when the input is accepted (the accepted problem is then simplified and compared by truth table). aiger: every AIG of the listed (inputs, latches, ands, outputs) tiers with all and-gate operand pairs, latch next-state literals x 4 init forms and output literals, plus AIGER-1.9 sections and symbol tables (every subset of the symbol lines in every order, for 4 input/latch count shapes), in both encodings; all non-trivial; binary and-gate sections with every delta pair 0..lhs+2 (valid or not) for the gates of one- and two-gate circuits: accepted iff lhs > rhs0 >= rhs1. Every enumerated case is distinct.",
         assumptions: vec![
             "simplify oracle demands exactly the documented contract: Err(gate on a cycle) / Err(unknown input literal) for the reachable fragment, otherwise equal root functions through the gate map, the five normal-form conditions, topological order, result gates are images of reachable gates".into(),
             "an unknown input that is absorbed by a constant of the same AND/OR gate (x AND false) may be answered with Ok (the doc says 'depends on'); Ok is then accepted iff every root is definite under Kleene evaluation and equal to the result; such cases are counted under outcome ok_unknown_masked".into(),
@@ -1818,6 +1818,49 @@ fn run_aigeq(ctx: &mut Ctx, cfg: AigCfg, shard: usize) {
 
 /// AIGER 1.9 sections and symbol tables on a small base circuit
 fn run_aigeq_extras(ctx: &mut Ctx) {
+    // binary and-gate section written byte by byte: every pair of deltas (valid or not) for the gate of a
+    // one-gate circuit and for either gate of a two-gate circuit; the format demands lhs > rhs0 >= rhs1,
+    // i.e. 1 <= delta0 <= lhs and delta1 <= rhs0, everything else has to be rejected (in particular a gate
+    // that refers to itself, which the ASCII parser reports as a cycle)
+    ctx.group("aigeq:deltas", |ctx| {
+        let mut n = 0u64;
+        for (ngates, varied) in [(1usize, 0usize), (2, 0), (2, 1)] {
+            let lhs: Vec<usize> = (0..ngates).map(|k| 2 * (2 + k + 1)).collect();
+            for d0 in 0..=(lhs[varied] + 2) {
+                for d1 in 0..=(lhs[varied] + 2) {
+                    let mut file = format!("aig {} 2 0 1 {}\n{}\n", 2 + ngates, ngates, lhs[ngates - 1]).into_bytes();
+                    for k in 0..ngates {
+                        if k == varied {
+                            file.push(d0 as u8);
+                            file.push(d1 as u8);
+                        } else {
+                            // a valid gate: and(input 2, input 1)
+                            file.push((lhs[k] - 4) as u8);
+                            file.push(2);
+                        }
+                    }
+                    let valid = d0 >= 1 && d0 <= lhs[varied] && d1 <= lhs[varied] - d0;
+                    for ca in [true, false] {
+                        n += 1;
+                        let o = (false, false, ca);
+                        let opts = mkopts(o);
+                        let case = || parser_case_json(Fmt::Aig, o, &file, "binary and-gate deltas (part aiger_eq)");
+                        let a = attrs(&[("part", "aiger_eq"), ("format", "aig"), ("entry", "parse")]);
+                        if let Some(r) = ctx.guarded(&a, case, || parse_direct(Fmt::Aig, &opts, &file)) {
+                            if r.is_ok() != valid {
+                                let mut a = a.clone();
+                                a.insert("class".into(), if valid { "valid_file_rejected" } else { "invalid_deltas_accepted" }.into());
+                                ctx.viol(a, case(), &format!("binary AIGER and gate {varied} (lhs {}) with deltas ({d0}, {d1}): {} although the deltas are {}; file {}", lhs[varied], if r.is_ok() { "accepted" } else { "rejected" }, if valid { "valid" } else { "invalid (the format demands lhs > rhs0 >= rhs1)" }, show_bytes(&file)));
+                            }
+                        }
+                    }
+                }
+            }
+        }
+        ctx.count("evaluations", n);
+        ctx.count("parser_calls", n);
+        ctx.count("nontrivial", n);
+    });
     let choices = [0usize, 3, 4];
     ctx.group("aigeq:extras", |ctx| {
         let mut st = AigStats { cases: 0, evals: 0, tally: Tally(BTreeMap::new()) };
